@@ -157,9 +157,17 @@ func checkGenKey(c *Case, v *Verdict) {
 	}
 	shape := "plain"
 	if plan.Frag > 0 || len(plan.Reads) > 0 {
-		shape = fmt.Sprintf("frag%d/reads%d", plan.Frag, len(plan.Reads))
+		fc := plan.Frag
+		if fc > 33 {
+			fc = 99
+		}
+		shape = fmt.Sprintf("frag%d/reads%d", fc, len(plan.Reads))
 	}
-	v.Sig = fmt.Sprintf("genkey nil=%v fail@%d kind=%d with=%v %s", op.NilRd, plan.FailAt-1, plan.FailKind, plan.FailWith, shape)
+	fa := plan.FailAt - 1
+	if fa > 33 {
+		fa = 34
+	}
+	v.Sig = fmt.Sprintf("genkey nil=%v fail@%d kind=%d with=%v rec=%v %s", op.NilRd, fa, plan.FailKind, plan.FailWith, plan.Recover, shape)
 	v.Nontriv = dev.ErrKind != 0 || dev.Shorts > 0 || dev.Stalls > 0 || op.NilRd
 	act := fmt.Sprintf("pub=%s priv=%s err=%v panic=%q device{calls=%d asked=%v gave=%v delivered=%d errkind=%d erratbyte=%d errwith=%v}",
 		hexOrNil(out.b), hexOrNil(out.b2), out.err, out.Panic, dev.Calls, dev.Asked, dev.Gave, dev.Delivered, dev.ErrKind, dev.ErrAtByte, dev.ErrWith)
@@ -486,6 +494,19 @@ func checkAccessors(c *Case, v *Verdict) {
 			return
 		}
 	}
-	v.Sig = "acc " + sig
+	// coverage signature: which kinds of steps occurred and how many (not
+	// their order: millions of orders would only bloat the evidence)
+	var seen [nAccSteps]bool
+	for _, s := range c.Steps {
+		seen[s] = true
+	}
+	set := ""
+	for i, b := range seen {
+		if b {
+			set += fmt.Sprintf("%x", i)
+		}
+	}
+	_ = sig
+	v.Sig = fmt.Sprintf("acc steps={%s} n=%d", set, len(c.Steps))
 	v.Nontriv = len(c.Steps) >= 3
 }
